@@ -143,6 +143,64 @@ func c16Acme(w *World) []Violation {
 	return vs
 }
 
+// c16AcmeWildcardFrom: automatic TLS on a wildcard host is refused whatever the service looked like before
+// (absent, plain, static certificate, automatic TLS with or without a cache path), and the earlier deployment stays.
+func c16AcmeWildcardFrom(prior string, hosts []string) func(w *World) []Violation {
+	return func(w *World) []Violation {
+		var vs []Violation
+		fx := fixtures()
+		name := "aw-" + prior
+		old := fmt.Sprintf("awo-%s:80", prior)
+		w.AddTarget(old)
+		w.AddTarget("awn:80")
+		host := prior + ".acme.example.com"
+		if prior != "absent" {
+			a := deployArgs(name, []string{old}, []string{host}, nil)
+			switch prior {
+			case "static":
+				a.ServiceOptions.TLSEnabled = true
+				a.ServiceOptions.TLSCertificatePath, a.ServiceOptions.TLSPrivateKeyPath = fx+"/cert.pem", fx+"/key.pem"
+			case "auto":
+				a.ServiceOptions.TLSEnabled = true
+			case "auto-cache":
+				a.ServiceOptions.TLSEnabled = true
+				a.ServiceOptions.ACMECachePath = w.Dir + "/acme-" + prior
+			}
+			if r := w.Deploy(a); r.Err != nil {
+				return []Violation{{"C16", "acme-setup-failed", prior + ": " + r.Err.Error()}}
+			}
+		}
+		b := deployArgs(name, []string{"awn:80"}, hosts, nil)
+		b.ServiceOptions.TLSEnabled = true
+		if prior == "auto-cache" {
+			b.ServiceOptions.ACMECachePath = w.Dir + "/acme-" + prior
+		}
+		r := w.Deploy(b)
+		if classifyErr(r.Err) != "acme-wildcard" {
+			vs = append(vs, Violation{"C16", "automatic-tls-accepted-for-wildcard", fmt.Sprintf("service previously %s, redeployed with automatic TLS on %v: %v", prior, hosts, r.Err)})
+		}
+		// nothing of the refused deployment is in force
+		if prior != "absent" {
+			tls := prior != "plain"
+			q := w.Do(ReqSpec{Host: host, Path: "/p", TLS: tls})
+			if q.Status != 200 || q.ServedBy() != old {
+				vs = append(vs, Violation{"C16", "refused-acme-deploy-changed-routing", fmt.Sprintf("prior=%s: request to the earlier host got %s", prior, q.Summary())})
+			}
+		}
+		q := w.Do(ReqSpec{Host: "foo.wild.acme.example.com", Path: "/p"})
+		if q.Status != 404 {
+			vs = append(vs, Violation{"C16", "refused-acme-deploy-changed-routing", fmt.Sprintf("prior=%s: request to a name under the wildcard got %s", prior, q.Summary())})
+		}
+		if _, err := w.Router.GetCertificate(&tls.ClientHelloInfo{ServerName: "foo.wild.acme.example.com"}); err == nil {
+			vs = append(vs, Violation{"C16", "certificate-served-for-unbound-or-non-tls-name", "foo.wild.acme.example.com after a refused wildcard deploy (prior=" + prior + ")"})
+		}
+		if prior != "absent" {
+			w.Remove(name)
+		}
+		return vs
+	}
+}
+
 // ---- engine S part: the policy of a sub-path service holds at every instant while other commands run
 
 type c16cfg struct {
@@ -242,12 +300,18 @@ func checkC16(t *testing.T, job *Job, res *Result) {
 	}
 	spec := c16Spec(tier)
 	res.Bounds = fmt.Sprintf("every history of up to %d successful commands", spec.Depth)
-	res.Rule = "histories over root services of a.example.com / b.example.com / *.example.com with TLS {off, static+redirect, static without redirect}, sub-path services with their own flags set differently (one host, two hosts, default host), remove, restart; after every history: scheme {http, https} x Host {bound, :80, :8443, wildcard-matched, unbound} x paths incl. //evil.example/x and %2F with queries; oracle: effective policy = that of the root-path service of the request host computed from the SET of services (301 with exact Location / 503 / forwarded), GetCertificate(SNI) for 7 names; plus the automatic-TLS boundary (host policy = bound hosts, wildcard refused)"
+	res.Rule = "histories over root services of a.example.com / b.example.com / *.example.com with TLS {off, static+redirect, static without redirect}, sub-path services with their own flags set differently (one host, two hosts, default host), remove, restart; after every history: scheme {http, https} x Host {bound, :80, :8443, wildcard-matched, unbound} x paths incl. //evil.example/x and %2F with queries; oracle: effective policy = that of the root-path service of the request host computed from the SET of services (301 with exact Location / 503 / forwarded), GetCertificate(SNI) for 7 names; plus the automatic-TLS boundary (host policy = bound hosts; wildcard refused as a first deploy and as a redeploy of a plain, static-certificate or automatic-TLS service)"
 	if job.Replay == nil || job.Replay.Engine == "H" {
 		exploreH(t, job, res, spec)
 	}
 	if job.Replay == nil || job.Replay.Engine == "E" {
-		runE(t, job, res, &ESpec{Prop: "C16", Cases: []ECase{{Name: "automatic TLS boundary", Class: "acme", Run: c16Acme}}, Batch: 1})
+		cases := []ECase{{Name: "automatic TLS boundary", Class: "acme", Run: c16Acme}}
+		for _, prior := range []string{"absent", "plain", "static", "auto", "auto-cache"} {
+			for i, hosts := range [][]string{{"*.wild.acme.example.com"}, {"z.acme.example.com", "*.wild.acme.example.com"}} {
+				cases = append(cases, ECase{Name: fmt.Sprintf("automatic TLS on a wildcard host, service previously %s, hosts %d", prior, i), Class: "acme-wildcard " + prior, Run: c16AcmeWildcardFrom(prior, hosts)})
+			}
+		}
+		runE(t, job, res, &ESpec{Prop: "C16", Cases: cases, Batch: 1})
 	}
 	if job.Replay == nil || job.Replay.Engine == "S" {
 		var scs []*Scenario
